@@ -100,6 +100,20 @@ def split_family(rng):
     return t1, t2
 
 
+def tie_family(rng):
+    """several removed and several added sub-lists that are all at exactly the same distance from each other (near-duplicates that differ in one
+    element): which one is paired with which is decided by the order in which the candidates are walked, and that order must not depend on the cache"""
+    stem = [rng.randint(100, 999) for _ in range(rng.randint(5, 8))]
+    k = rng.randint(2, 4)
+    olds = [stem + [1000 + i] for i in range(k)]
+    news = [stem + [2000 + i] for i in range(rng.randint(2, 4))]
+    keep = [[rng.randint(0, 9) for _ in range(3)] for _ in range(rng.randint(0, 2))]
+    t1 = olds + keep; t2 = keep + news
+    rng.shuffle(t1); rng.shuffle(t2)
+    w = rng.choice([lambda v: v, lambda v: {'rows': v}, lambda v: [v, ['tail']]])
+    return w(t1), w(t2)
+
+
 def template_family(rng):
     """t1 refers to one sub-list object in several places (an item of the outer list that is also nested inside later items, the way
     near-duplicate records get built); t2 holds edited copies"""
@@ -238,6 +252,7 @@ def run(ctx, impl_only=False):
     pairs += [(x, C05.mutate(ctx.rng, g, copy.deepcopy(x))) for x in (g.container() for _ in range(n))]
     pairs += [split_family(ctx.rng) for _ in range(n // 2)]
     pairs += [template_family(ctx.rng) for _ in range(max(6, n // 2))]
+    pairs += [tie_family(ctx.rng) for _ in range(max(6, n // 2))]
     cache_keys(ctx)
     history_independence(ctx)
     lines, metas = [], []
